@@ -176,6 +176,7 @@ func (s *Lexer) ws() {
 			if s.end < len(s.Input) && s.Input[s.end] == '\n' {
 				s.end++
 				s.endRunes++
+				s.lineStartRunes = s.endRunes
 			}
 			// byte order mark, given ws is hot path we aren't relying on the unicode package here.
 		case 0xef:
